@@ -170,6 +170,7 @@ class GenRun:
             lines.append("Definition g_%d : option file := gen_file tab_%d d_%d." % (i, i, i))
             lines.append("Definition ok_%d : bool := Eval vm_compute in opt_file_eqb p_%d g_%d." % (i, i, i))
             lines.append("Theorem cert_%d : opt_file_eqb p_%d g_%d = ok_%d. Proof. vm_cast_no_check (eq_refl ok_%d). Qed." % (i, i, i, i, i))
+            lines.append("Definition real_%d := validator_sound ipc tab_%d d_%d p_%d." % (i, i, i, i))
             lines.append("Definition diff_%d := Eval vm_compute in file_diff p_%d g_%d." % (i, i, i))
             ncases = len(st["cases"])
             have_obs = m["generated"] and all(("%s/%d" % (m["key"], j)) in self.obs for j in range(ncases)) and ncases > 0
